@@ -434,6 +434,8 @@ def div_literals(expr, fp_arithmetic=False):
     if isinstance(expr.numerator, sym.FloatLiteral) or isinstance(expr.denominator, sym.FloatLiteral):
         if not fp_arithmetic:
             return expr
+        if not all(isinstance(e, (sym.IntLiteral, sym.FloatLiteral)) for e in (expr.numerator, expr.denominator)):
+            return expr
         return sym.Literal(float(expr.numerator.value) / float(expr.denominator.value))
 
     if not isinstance(expr.denominator, sym.IntLiteral):
